@@ -189,6 +189,55 @@ func (oc *obligCtx) paramNonNeg1(p *ssa.Parameter, depth int) bool {
 	return true
 }
 
+// paramLenFloor: the largest m ≤ 4 such that every call site of the (unexported, never escaping)
+// function passes a slice of length ≥ m for this parameter.
+func (oc *obligCtx) paramLenFloor(p *ssa.Parameter) int64 {
+	fn := p.Parent()
+	if fn == nil || fn.Parent() != nil {
+		return 0
+	}
+	if o := fn.Object(); o == nil || o.Exported() {
+		return 0
+	}
+	idx := paramIndex(fn, p)
+	n := oc.c.CHA().Nodes[fn]
+	if n == nil || len(n.In) == 0 || idx < 0 {
+		return 0
+	}
+	floor := int64(4)
+	for _, e := range n.In {
+		if e.Site == nil || !oc.c.modFuncSet[e.Caller.Func] || e.Site.Common().StaticCallee() != fn {
+			if e.Caller.Func.Synthetic != "" {
+				if wn := oc.c.CHA().Nodes[e.Caller.Func]; wn == nil || len(wn.In) == 0 {
+					continue
+				}
+			}
+			return 0
+		}
+		args := callArgs(e.Site.Common())
+		if idx >= len(args) {
+			return 0
+		}
+		in, _ := e.Site.(ssa.Instruction)
+		f := FactsAt(in)
+		m := int64(0)
+		for k := int64(1); k <= floor; k++ {
+			if f.lenAtLeast(args[idx], k) {
+				m = k
+			} else {
+				break
+			}
+		}
+		if m < floor {
+			floor = m
+		}
+		if floor == 0 {
+			return 0
+		}
+	}
+	return floor
+}
+
 // capturedNonNeg: v is the load of a variable captured by a closure, and every value the enclosing
 // function stores into that variable is non-negative there.
 func (oc *obligCtx) capturedNonNeg(v ssa.Value, depth int) bool {
@@ -522,6 +571,12 @@ func (oc *obligCtx) indexOb(fn *ssa.Function, in ssa.Instruction, X, idx ssa.Val
 		return
 	}
 	if k, isC := constInt(idx); isC {
+		// a slice parameter of an unexported function: what every call site knows about its length
+		if p, isP := X.(*ssa.Parameter); isP && k >= 0 {
+			if fl := oc.paramLenFloor(p); fl > 0 {
+				f.Cmps = append(f.Cmps, Cmp{L: Term{LenPath: accessPath(X), LenVal: X}, Op: token.GEQ, R: Term{IsConst: true, K: fl}})
+			}
+		}
 		if k >= 0 && f.lenAtLeast(X, k+1) {
 			add("index", in, desc, true, fmt.Sprintf("len(%s) > %d established by a dominating condition or by construction", accessPath(X), k))
 			return
